@@ -142,8 +142,18 @@ pub fn one_with(ctx: &mut Ctx, rng: &mut Rng, x: &[u8], max_ops: usize, first: O
     // native execution doubles as generator; a native panic is C08/C09's business
     let sc = match guarded(u64::MAX / 2, || generate_with(rng, &mut pp1, max_ops, first)) {
         Ok(s) => s,
-        Err(_) => {
-            ctx.count("native_panic_skipped");
+        Err(p) => {
+            // A panic of the library itself while a hook's sequence of calls is executed natively means the same
+            // calls through the table unwind into C: a crash where the property promises -1 and a description.
+            // (The table is not driven for such a script: the process would abort.) A panic raised by the
+            // harness's own generator is not the library's doing and only skips the script.
+            let in_library = p.file.contains("/src/") && !p.file.contains("harness") && !p.file.contains("/verif/");
+            if in_library && !p.is_budget() {
+                ctx.evaluations += 1;
+                ctx.violation("C15", format!("script|library-panics|{}", p.class()), format!("executing a hook script natively panicked at {}:{}: {} (through the table this unwinds across the extern \"C\" frame)", p.file, p.line, p.msg), x);
+            } else {
+                ctx.count("native_panic_skipped");
+            }
             return;
         }
     };
@@ -258,6 +268,21 @@ pub fn run(ctx: &mut Ctx) {
         };
         let v = gen_valid(&mut rng, &cfg);
         let max_ops = if ctx.tier == "miri" { 5 } else { 10 };
+        if ctx.tier != "miri" && case % 64 == 63 {
+            // an accepted packet larger than 8192 bytes, as arrives over TCP (the table's raw_packet takes any
+            // capacity the hook states)
+            let mut m = v.msg.clone();
+            for i in 0..rng.range(10, 14) {
+                m.sec[i % 3].push(Record { name: Name::from_labels(&[b"big"]), rtype: T_TXT, class: 1, ttl: i as u32, rdata: RData::Opaque(vec![b'x'; rng.range(700, 900)]) });
+            }
+            // (OPT, if any, stays where it was in the additional section)
+            let big = m.encode_literal();
+            if crate::model::refparse::accepts(&big) {
+                ctx.count("scripts_on_packets_above_8192");
+                one(ctx, &mut rng, &big, max_ops);
+                continue;
+            }
+        }
         one(ctx, &mut rng, &v.bytes, max_ops);
     }
     // names at the very top of what the parser accepts (255 wire bytes = 253 text characters + terminator in a
